@@ -138,7 +138,7 @@ Print Assumptions C05_generated_code_is_typed.
 Example C05_code_typed_refuses :
   ~ stmt_ok {| ce_classes := []; ce_enums := []; ce_objects := []; ce_this := None |} [T_INT; T_DOUBLE; T_INT] (TAssign 2 (RBinary BoAdd (OLocal 0 T_INT) (OLocal 1 T_DOUBLE))) /\
   ~ stmt_ok {| ce_classes := []; ce_enums := []; ce_objects := []; ce_this := None |} [T_INT; T_STRING] (TAssign 1 (RCopy (OLocal 0 T_INT))) /\
-  ~ term_ok (Some (TmBrCond (OLocal 0 T_INT) 1 2)) /\
+  ~ term_ok_final (Some (TmBrCond (OLocal 0 T_INT) 1 2)) /\
   stmt_ok {| ce_classes := []; ce_enums := []; ce_objects := []; ce_this := None |} [T_INT; T_INT; T_INT] (TAssign 2 (RBinary BoAdd (OLocal 0 T_INT) (OLocal 1 T_INT))).
 Proof.
   split; [|split; [|split]].
